@@ -124,6 +124,9 @@ class Flow:
             cn = call_name(e)
             tag = f'call:{cn}'
             f = e.func
+            dq = dotted(f)
+            if dq is not None:
+                ops = (f'callq:{dq}',) + ops
             if isinstance(f, ast.Attribute):
                 # dict.get('k', default)
                 if cn == 'get' and e.args and const_key(e.args[0]) is not None:
@@ -333,6 +336,13 @@ class Flow:
                     out.append(s)
                     break
         return out
+
+
+def get_flow(proj: Project, fi: FuncInfo) -> Flow:
+    cache = proj.__dict__.setdefault('_flow_cache', {})
+    if fi.qualname not in cache:
+        cache[fi.qualname] = Flow(proj, fi)
+    return cache[fi.qualname]
 
 
 def arg_of(call: ast.Call, fi_callee: Optional[FuncInfo], pname: str, pos: Optional[int] = None):
